@@ -174,10 +174,92 @@ def rule_R2v(text, args, log):
     return _desugar_for(text, log, by_value=True)
 
 
+def _chain_calls(text, method):
+    """find `BASE .iter() [.copied()] .<method>( |v| BODY )` occurrences (whitespace/newlines allowed between links).
+    yields (start, end, base, var, body, copied)"""
+    m = mask(text)
+    rx = re.compile(r'(?P<base>[A-Za-z_][A-Za-z0-9_]*(?:\s*\.\s*[A-Za-z_][A-Za-z0-9_]*)*?)\s*\.\s*iter\(\)\s*(?P<cp>\.\s*copied\(\)\s*)?\.\s*' + method + r'\(')
+    res = []
+    for mm in rx.finditer(m):
+        ob = mm.end() - 1
+        cb = match_close(m, ob)
+        inner = text[ob + 1:cb]
+        cm = re.match(r'\s*\|\s*(&?\s*[A-Za-z_][A-Za-z0-9_]*)\s*\|\s*(.*)$', inner, re.S)
+        if not cm:
+            raise ExtractError('unsupported construct: closure shape in .%s(..)' % method)
+        body = cm.group(2).strip()
+        if body.startswith('{') and body.endswith('}'):
+            raise ExtractError('unsupported construct: block closure in .%s(..)' % method)
+        base = ''.join(text[mm.start('base'):mm.end('base')].split())
+        res.append((mm.start(), cb + 1, base, cm.group(1).replace(' ', ''), body, bool(mm.group('cp'))))
+    return res
+
+
+_ctr = {'n': 0}
+
+
+def rule_R10(text, args, log):
+    """`E.iter()[.copied()].any(|v| P)` -> early-exit loop (same short-circuit order):
+       { let mut __anyN = false; let mut __aN = 0; while __aN < E.len() && !__anyN { let v = &E[__aN]; __aN += 1; if P { __anyN = true; } } __anyN }"""
+    spans = []
+    for i, (a, b, base, var, body, copied) in enumerate(_chain_calls(text, 'any')):
+        n = 'a%d' % i
+        deref = var.startswith('&')
+        v = var.lstrip('&')
+        bind = 'let %s = %s[__%s];' % (v, base, n) if (copied or deref) else 'let %s = &%s[__%s];' % (v, base, n)
+        new = '{ let mut __any%d = false; let mut __%s: usize = 0; while __%s < %s.len() && !__any%d { %s __%s += 1; if %s { __any%d = true; } } __any%d }' % (
+            i, n, n, base, i, bind, n, ' '.join(body.split()), i, i)
+        spans.append((a, b, new))
+    return _replace_spans(text, spans, log)
+
+
+def rule_R16(text, args, log):
+    """`E.iter().copied().filter(|x| P).count()` -> counting loop; the closure parameter is a reference to the item, as in Iterator::filter"""
+    m = mask(text)
+    spans = []
+    for i, (a, b, base, var, body, copied) in enumerate(_chain_calls(text, 'filter')):
+        tail = re.match(r'\s*\.\s*count\(\)', m[b:])
+        if not tail:
+            raise ExtractError('unsupported construct: .filter(..) not followed by .count()')
+        n = 'f%d' % i
+        v = var.lstrip('&')
+        if var.startswith('&'):
+            bind = 'let %s = %s[__%s];' % (v, base, n)
+        else:
+            bind = 'let %s = &%s[__%s];' % (v, base, n)
+        new = '{ let mut __cnt%d: usize = 0; let mut __%s: usize = 0; while __%s < %s.len() { %s __%s += 1; if %s { __cnt%d += 1; } } __cnt%d }' % (
+            i, n, n, base, bind, n, ' '.join(body.split()), i, i)
+        spans.append((a, b + tail.end(), new))
+    return _replace_spans(text, spans, log)
+
+
+def rule_R11(text, args, log):
+    """`O.unwrap_or_else(|| BODY)` -> `match O { Some(__v) => __v, None => BODY }`  (args 'deref': `match *O`)"""
+    m = mask(text)
+    spans = []
+    rx = re.compile(r'(?P<o>[A-Za-z_][A-Za-z0-9_]*(?:\.[A-Za-z_][A-Za-z0-9_]*)*)\s*\.\s*unwrap_or_else\(')
+    for mm in rx.finditer(m):
+        ob = mm.end() - 1
+        cb = match_close(m, ob)
+        inner = text[ob + 1:cb]
+        cm = re.match(r'\s*\|\s*\|\s*(.*)$', inner, re.S)
+        if not cm:
+            raise ExtractError('unsupported construct: unwrap_or_else closure with parameters')
+        o = text[mm.start('o'):mm.end('o')]
+        if 'deref' in args:
+            o = '*' + o
+        new = 'match %s { Some(__v) => __v, None => %s }' % (o, cm.group(1).rstrip())
+        spans.append((mm.start(), cb + 1, new))
+    return _replace_spans(text, spans, log)
+
+
 BUILTIN = {
     'R1': rule_R1,
     'R2': rule_R2,
     'R2v': rule_R2v,
     'R6': rule_R6,
     'R7': rule_R7,
+    'R10': rule_R10,
+    'R11': rule_R11,
+    'R16': rule_R16,
 }
